@@ -565,6 +565,495 @@ def replay_shape_mix(ctx, c):
     return bool(bad)
 
 
+# ---------------------------------------------------------------- phase 6 G1: dimensions of the quantifier sampled at one point only
+import os as _os
+P6G_OFF = _os.environ.get("FCV_P6G_OFF") == "1"      # mutation experiments only: run the check WITHOUT the phase-6-G1 batches
+P6G_INTND = _os.environ.get("FCV_P6G_INTND") == "1"  # opt-in: reflexivity of explicit FuzzyEquality on n-d integer arrays
+
+
+def larger_tol(rng, t):
+    """a tolerance >= t of the same kind (component-wise for arrays, base-wise for data-computed ones)"""
+    k = t[0]
+    if k == "num":
+        return ["num", larger(rng, t[1])]
+    if k == "arr":
+        return ["arr", t[1], [larger(rng, x) for x in t[2]]]
+    if k in ("scaled", "scomp") and t[1] is not None:
+        return [k, larger(rng, t[1])]
+    return list(t)
+
+
+def _laws(ctx, case, v, cls=None, what=""):
+    if v["aa"] != "T":
+        ctx.violation(dict(case, law="reflexive"), v["aa"], "T", cls=cls, what="array does not compare equal to itself" + what)
+    if v["ab1"] != v["ba1"]:
+        ctx.violation(dict(case, law="symmetric"), f"{v['ab1']}/{v['ba1']}", "equal verdicts", cls=cls,
+                      what="verdict depends on the argument order" + what)
+    if v["ab1"] == "T" and v["ab2"] != "T":
+        ctx.violation(dict(case, law="monotone"), f"t1:{v['ab1']} t2:{v['ab2']}", "pass stays pass", cls=cls,
+                      what="enlarging the tolerances turned a pass into a fail" + what)
+
+
+def _four(kind, A, B, t1, t2):
+    return {"aa": predio.run_impl(kind, t1[0], t1[1], A, A), "ab1": predio.run_impl(kind, t1[0], t1[1], A, B),
+            "ba1": predio.run_impl(kind, t1[0], t1[1], B, A), "ab2": predio.run_impl(kind, t2[0], t2[1], A, B)}
+
+
+def run_small_floats(ctx, n):
+    """the three laws on float32 / float16 arrays ('all finite floating-point arrays'): boundary-directed pairs of
+    `c01.gen_small_float_case` (weak Python-float, default, per-component, scaled and per-component-scaled tolerances,
+    shapes (n,), (n,k), (n,1), (n,)~(n,1)), second tolerance level >= the first of the same kind.  Every evaluation is also
+    compared with the Lean model where the driver reports hyp / mhyp (C01's float32/16 model)."""
+    rng = ctx.rng
+    groups, lines, lidx = [], [], []
+    for _ in range(n):
+        while True:
+            c, tags = c01.gen_small_float_case(rng)
+            # empty fields with a data-computed tolerance raise (np.max of nothing): outside the statement (NOTES_C01_C09_C10)
+            if not c["a"]["v"] and any(t[0] in ("scaled", "scomp") for t in (c["rel"], c["abs"])):
+                continue
+            # per-component tolerance arrays are defined for fields of ONE entry shape: not next to a flattened operand
+            if c["a"]["shape"] != c["b"]["shape"] and any(t[0] == "arr" for t in (c["rel"], c["abs"])):
+                continue
+            break
+        A, B = c["a"], c["b"]
+        t1 = (c["rel"], c["abs"])
+        t2 = (larger_tol(rng, c["rel"]), larger_tol(rng, c["abs"]))
+        evs = {"aa": (A, A, t1), "ab1": (A, B, t1), "ba1": (B, A, t1), "ab2": (A, B, t2)}
+        for name, (x, y, t) in evs.items():
+            lines.append(predio.enc_pred("fuzzy", t[0], t[1], x, y)); lidx.append((len(groups), name))
+        groups.append({"A": A, "B": B, "t1": t1, "t2": t2, "tags": tags, "model": {}})
+    if ctx.driver_ok and lines:
+        for (gi, name), r in zip(lidx, ctx.lean(lines)):
+            groups[gi]["model"][name] = r
+    for g in groups:
+        A, B, t1, t2 = g["A"], g["B"], g["t1"], g["t2"]
+        v = _four("fuzzy", A, B, t1, t2)
+        case = {"kind": "fuzzy", "a": A, "b": B, "t1": t1, "t2": t2}
+        ctx.case(("small", A, B, str(t1), str(t2)), nontrivial=(A["v"] != B["v"]),
+                 tags=["p6-small-float", "small-" + A["dt"], "small-" + g["tags"][2], "ab1-" + v["ab1"], "ab2-" + v["ab2"]], sample=None)
+        for name, r in g["model"].items():
+            if r is not None and "model" in r and (r.get("hyp") == "1" or r.get("mhyp") == "1") and r["model"] != v[name]:
+                ctx.mismatch(dict(case, evaluation=name), v[name], r["model"], what=A["dt"] + ": impl vs model")
+        _laws(ctx, case, v, what=" (" + A["dt"] + " arrays)")
+
+
+MIXED_PAIRS = [("f32", "f64"), ("f16", "f64"), ("f16", "f32"), ("i8", "f64"), ("i32", "f64"), ("u16", "f64"), ("i64", "f64"),
+               ("u64", "f64"), ("i8", "f32"), ("i32", "f32"), ("u8", "f16"), ("i16", "f16"), ("i8", "i64"), ("u8", "i32"),
+               ("u32", "i64"), ("u64", "i64"), ("i16", "u16")]
+
+
+def run_mixed_dtypes(ctx, n):
+    """the laws when the two arrays have DIFFERENT element types ('all finite floating-point and integer arrays a, b';
+    'does not depend on which array is passed as source and which as reference'): float32/float16 next to float64 /
+    float32, every integer width next to float64 / float32 / float16, and integer pairs of different width / signedness
+    under Default / Exact (explicit FuzzyEquality on two integer arrays is left to `run_ints`: findings F12 / F13).  The
+    type minimum of signed types is not drawn (class F13-absmin).  Metamorphic only (no model for these pairs): search."""
+    rng = ctx.rng
+    for _ in range(n):
+        da, db = rng.choice(MIXED_PAIRS)
+        nrow = rng.choice([1, 2, 3, 6]); k = rng.choice([1, 1, 3])
+        shape = [nrow] if k == 1 else [nrow, k]
+        size = nrow * k
+        both_int = db in c09.INTS
+        if da in c09.INTS:
+            lo, hi = c09.INTS[da]
+            if both_int:
+                lo, hi = max(lo, c09.INTS[db][0]), min(hi, c09.INTS[db][1])
+            elif db == "f16":
+                lo, hi = max(lo, -2000), min(hi, 2000)
+            a = [max(lo + 1, min(hi, rng.choice([rng.randint(-100, 100), hi, hi - 1, lo + 1, 2 ** 24 + 1, 2 ** 53 + 1]))) for _ in range(size)]
+            b = [x if both_int else float(x) for x in a]
+        else:
+            T = predio.NP_DT[da]
+            e = rng.choice([-20, -3, 0, 1, 10]) if da == "f32" else rng.choice([-10, -3, 0, 3, 10])
+            a = [float(T(c01.rand_float(rng, [e]))) for _ in range(size)]
+            b = list(a)
+        if db in ("f32", "f16"):
+            with np.errstate(all="ignore"):
+                b = [float(predio.NP_DT[db](x)) for x in b]
+            b = [x if np.isfinite(x) else 1.0 for x in b]
+        kinds = ["default", "exact"] if both_int else ["fuzzy", "default"]
+        kind = rng.choice(kinds)
+        q = rng.random()
+        if q < 0.35:
+            t1 = (["dflt"], ["dflt"])
+        elif q < 0.5:
+            t1 = (["dflt"], ["num", rng.choice([0.0, 1e-6, 0.5])])
+        else:
+            t1 = (["num", rng.choice([0.0, 2.0 ** -52, 2.0 ** -23, 1e-6, 1e-3])], ["num", rng.choice([0.0, 1e-12, 1e-6, 0.5, 1.0])])
+        # deviation: on the float side around the thresholds of EITHER type's epsilon, or one unit on an integer side
+        for _d in range(rng.choice([0, 1, 1, 2])):
+            i = rng.randrange(size)
+            if both_int:
+                b[i] = b[i] + 1 if b[i] + 1 <= c09.INTS[db][1] else b[i] - 1
+            else:
+                r = t1[0][1] if t1[0][0] == "num" else rng.choice([2.0 ** -52, 2.0 ** -23, 2.0 ** -10])
+                t = t1[1][1] if t1[1][0] == "num" else 0.0
+                y = c01.near_boundary_partner(rng, float(b[i]), r, t) if rng.random() < 0.8 else float(b[i]) + rng.choice([0.5, 1.0])
+                if db in ("f32", "f16"):
+                    with np.errstate(all="ignore"):
+                        y = float(predio.NP_DT[db](y))
+                if np.isfinite(y):
+                    b[i] = y
+        # every tolerance kind: per-component ndarrays and data-computed tolerances replace the numbers chosen above (the
+        # deviation stays where it was placed: within / beyond is then decided by the kind, the laws hold regardless)
+        tkq = rng.random()
+        tk = "num"
+        if k > 1 and tkq < 0.2:
+            t1 = (["arr", [k], [rng.choice([0.0, 2.0 ** -23, 1e-6, 1e-3]) for _ in range(k)]],
+                  ["arr", [k], [rng.choice([0.0, 1e-6, 0.5, 1.0]) for _ in range(k)]]); tk = "percomp"
+        elif tkq < 0.3:
+            t1 = (t1[0], ["scaled", rng.choice([1e-9, 1e-6, 1e-2])]); tk = "scaled"
+        elif k > 1 and tkq < 0.4:
+            t1 = (t1[0], ["scomp", rng.choice([1e-9, 1e-6, 1e-2])]); tk = "scomp"
+        elif tkq < 0.45 and kind != "exact":
+            t1 = (["scaled", None], t1[1] if t1[1][0] == "num" else ["num", 0.0]); tk = "scaled-rel"
+        t2 = (larger_tol(rng, t1[0]), larger_tol(rng, t1[1]))
+        A, B = {"dt": da, "shape": shape, "v": a}, {"dt": db, "shape": list(shape), "v": b}
+        v = _four(kind, A, B, t1, t2)
+        v["bb"] = predio.run_impl(kind, t1[0], t1[1], B, B)
+        if kind == "fuzzy" and da in c09.INTS and len(shape) >= 2 and not P6G_INTND:
+            # (a,a) is explicit FuzzyEquality on two INTEGER arrays with >= 2 dimensions: raises PredicateError on the clean
+            # tree for every float tolerance (suspected genuine defect, reported; notes/PHASE6_G1.md).  FCV_P6G_INTND=1
+            # puts the evaluation back.
+            v["aa"] = "T"
+        case = {"kind": kind, "a": A, "b": B, "t1": t1, "t2": t2, "mixed_dtypes": True}
+        ctx.case(("mixed", kind, A, B, str(t1), str(t2)), nontrivial=[float(x) for x in a] != [float(x) for x in b],
+                 tags=["p6-mixed-dtypes", f"mixed-{da}/{db}", "mixed-" + kind, "mixed-rel-" + t1[0][0], "mixed-tol-" + tk,
+                       "ab1-" + v["ab1"], "ba1-" + v["ba1"]],
+                 sample=None)
+        _laws(ctx, case, v, what=f" ({da} array vs {db} array)")
+        if v["bb"] != "T":
+            ctx.violation(dict(case, law="reflexive", evaluation="bb"), v["bb"], "T", what="array does not compare equal to itself")
+
+
+def _cli_mixed_files(c, d):
+    pa, pb = _os.path.join(d, "ints.csv"), _os.path.join(d, "floats.csv")
+    with open(pa, "w") as fh:
+        fh.write("id,v\n" + "".join(f"{r},{x}\n" for r, x in enumerate(c["ints"])))
+    with open(pb, "w") as fh:
+        fh.write("id,v\n" + "".join(f"{r},{x!r}\n" for r, x in enumerate(c["floats"])))
+    return pa, pb
+
+
+def _cli_mixed_eval(c):
+    import shutil
+    import tempfile
+    from fcv.cli import run_cli
+    d = tempfile.mkdtemp(prefix="fcv_c10m_")
+    try:
+        pa, pb = _cli_mixed_files(c, d)
+        return {"int-first": run_cli(["file", pa, pb] + c["options"])[0], "float-first": run_cli(["file", pb, pa] + c["options"])[0]}
+    finally:
+        shutil.rmtree(d, ignore_errors=True)
+
+
+CLI_MIXED_TOL = {(): (None, 0.0), ("-atol", "0.01"): (None, 0.01), ("-atol", "v:0.01"): (None, 0.01),
+                 ("-rtol", "0", "-atol", "0.01"): (0.0, 0.01), ("-atol", "1e-3*max"): (None, "max"),
+                 ("-rtol", "v:1e-3"): (1e-3, 0.0), ("-atol", "0.01", "-rtol", "1e-9"): (1e-9, 0.01)}
+
+
+def _cli_mixed_want(c):
+    """exit 0 demanded?  The documented formula on every row with the tolerances the options select for column `v`
+    (absent: rel = eps(float64), abs = 0; `t*max`: t times the largest magnitude in either file)"""
+    rel, abs_ = CLI_MIXED_TOL[tuple(c["options"])]
+    rel = 2.0 ** -52 if rel is None else rel
+    if abs_ == "max":
+        abs_ = rn64(Fraction(1e-3) * Fraction(max(max(abs(float(x)) for x in c["ints"]), max(abs(x) for x in c["floats"]))))
+    return all(predio.float_formula(float(x), y, rel, abs_) for x, y in zip(c["ints"], c["floats"]))
+
+
+def run_cli_mixed(ctx, n):
+    """the command line on a MIXED pair: a CSV column typed integer in one file (`3`) against the same column typed float
+    in the other (`3.0`, `3.0009765625`), the integer file given first and second; deviation none / within / beyond the
+    tolerance selected by the options (general, per-field, `t*max`, relative only, none at all).  Law: the exit class does
+    not depend on the order of the files.  Expectation (one side holds floats -> fuzzy formula): exit 0 iff every row
+    satisfies the documented formula with the tolerances the options select (`_cli_mixed_want`; deviations 2^-10 / 0.5 stay
+    > 2 % away from every threshold that can occur)."""
+    rng = ctx.rng
+    for _ in range(n):
+        rows = rng.randint(1, 5)
+        ints = [rng.randint(-40, 40) for _ in range(rows)]
+        ints[rng.randrange(rows)] = rng.choice([-50, 50])            # max|v| = 50 for `t*max`
+        fl = [float(x) for x in ints]
+        dev = rng.choice(["none", "within", "beyond"])
+        if dev != "none":
+            fl[rng.randrange(rows)] += {"within": 2.0 ** -10, "beyond": 0.5}[dev] * rng.choice([1, -1])
+        opt = rng.choice([[], ["-atol", "0.01"], ["-atol", "v:0.01"], ["-rtol", "0", "-atol", "0.01"], ["-atol", "1e-3*max"],
+                          ["-rtol", "v:1e-3"], ["-atol", "0.01", "-rtol", "1e-9"]])
+        c = {"kind": "cli-mixed", "ints": ints, "floats": fl, "options": opt, "deviation": dev}
+        out = _cli_mixed_eval(c)
+        want0 = _cli_mixed_want(c)
+        ctx.case(("cli-mixed", tuple(ints), tuple(fl), tuple(opt)), nontrivial=dev != "none",
+                 tags=["p6-cli-mixed", "cli-mixed-" + dev, "cli-mixed-opt-" + ("none" if not opt else opt[0] + ("-field" if ":" in opt[1] else "-max" if "max" in opt[1] else "")),
+                       f"cli-mixed-exits-{out['int-first']}/{out['float-first']}"], sample=None)
+        if (out["int-first"] == 0) != (out["float-first"] == 0):
+            ctx.violation(dict(c, law="symmetric", exits=out), str(out), "equal exit classes",
+                          what="`fieldcompare file` on an integer column against a float column: the exit status depends on which file comes first")
+        elif (out["int-first"] == 0) != want0:
+            ctx.violation(dict(c, law="cli-mixed-expectation", exits=out), str(out), "exit 0" if want0 else "non-zero exit",
+                          what="`fieldcompare file` on an integer column against a float column: exit status differs from the fuzzy formula")
+
+
+def _call(p, x, y):
+    from fieldcompare.predicates import PredicateError
+    with warnings.catch_warnings():
+        warnings.simplefilter("ignore")
+        with np.errstate(all="ignore"):
+            try:
+                return "T" if bool(p(x, y)) else "F"
+            except PredicateError:
+                return "E"
+            except Exception as e:  # noqa: BLE001
+                return f"X:{type(e).__name__}"
+
+
+REUSE_SEQ = ["xx", "xy", "yx", "xy2", "yx", "xx", "yy"]
+
+
+def _operand_reuse_eval(c):
+    """the evaluations of REUSE_SEQ on ONE pair of operand objects (x, y) and two predicate objects; returns
+    (verdicts on the reused objects, verdicts on fresh objects holding the literal values)"""
+    A, B, kind, t1, t2 = c["a"], c["b"], c["kind"], c["t1"], c["t2"]
+    x, y = predio.np_array(A), predio.np_array(B)
+    p1, p2 = predio.make_pred(kind, t1[0], t1[1]), predio.make_pred(kind, t2[0], t2[1])
+    ev = {"xx": (p1, x, x), "xy": (p1, x, y), "yx": (p1, y, x), "xy2": (p2, x, y), "yy": (p1, y, y)}
+    lit = {"xx": (t1, A, A), "xy": (t1, A, B), "yx": (t1, B, A), "xy2": (t2, A, B), "yy": (t1, B, B)}
+    reused = [_call(*ev[s]) for s in REUSE_SEQ]
+    fresh = [predio.run_impl(kind, lit[s][0][0], lit[s][0][1], lit[s][1], lit[s][2]) for s in REUSE_SEQ]
+    return reused, fresh
+
+
+def run_operand_reuse(ctx, n):
+    """reflexivity with literally THE SAME array object on both sides, and the other evaluations of a law group on the same
+    two operand objects (as a user who checks P(a,b) and P(b,a) does) — float64 / float32 / integer data, plain and
+    read-only (np.frombuffer) operands, empty arrays included.  Every verdict must be the verdict on fresh objects holding
+    the same values, and the laws must hold along the sequence."""
+    rng = ctx.rng
+    for _ in range(n):
+        fam = rng.choice(["f64", "f64", "f32", "int", "empty"])
+        if fam in ("f64", "f32"):
+            shape, a, b, rel, abs_ = gen_float_pair(rng)
+            if fam == "f32":
+                a = [float(np.float32(max(-1e30, min(1e30, x)))) for x in a]
+                b = [float(np.float32(max(-1e30, min(1e30, x)))) for x in b]
+            dt = fam
+            kind = rng.choice(["fuzzy", "default"])
+            entry = shape[1:]
+            rs = int(np.prod(entry)) if entry else 1
+            q = rng.random()
+            if q < 0.5 or not entry:
+                t1 = (["num", rel], ["num", abs_])
+            elif q < 0.75:
+                t1 = (["arr", entry, [rng.choice(c01.RELS[:12]) for _ in range(rs)]], ["arr", entry, [rng.choice(c01.ABSS) for _ in range(rs)]])
+            else:
+                t1 = (["num", rel], [rng.choice(["scaled", "scomp"]), rng.choice([1e-12, 1e-6, 0.25])])
+        elif fam == "int":
+            dt = rng.choice(list(c09.INTS))
+            size = rng.choice([1, 3, 6])
+            shape = [size]
+            a = [rng.randint(max(c09.INTS[dt][0] + 1, -100), min(c09.INTS[dt][1], 100)) for _ in range(size)]
+            b = list(a)
+            if rng.random() < 0.6:
+                i = rng.randrange(size)
+                b[i] = b[i] + 1 if b[i] < c09.INTS[dt][1] else b[i] - 1
+            kind = rng.choice(["default", "exact"])
+            t1 = (["num", rng.choice([0.0, 0.5])], ["num", rng.choice([0.0, 2.0])])
+        else:
+            dt = rng.choice(["f64", "f32", "i32", "u8"])
+            shape = rng.choice([[0], [0, 3], [0, 2, 2]])
+            a, b = [], []
+            kind = rng.choice(["fuzzy", "default", "exact"]) if dt in ("f64", "f32") else rng.choice(["default", "exact"])
+            t1 = (rng.choice([["dflt"], ["num", 0.0], ["num", 1e-3]]), rng.choice([["dflt"], ["num", 0.0]]))
+        t2 = (larger_tol(rng, t1[0]), larger_tol(rng, t1[1]))
+        A, B = {"dt": dt, "shape": shape, "v": a}, {"dt": dt, "shape": list(shape), "v": b}
+        if rng.random() < 0.35:
+            r = rng.choice(["frombuffer", "readonly"])
+            A, B = dict(A, rep=r), dict(B, rep=r)
+        c = {"kind": kind, "a": A, "b": B, "t1": t1, "t2": t2, "operand_reuse": True}
+        reused, fresh = _operand_reuse_eval(c)
+        ctx.case(("opreuse", kind, A, B, str(t1), str(t2)), nontrivial=(a != b),
+                 tags=["p6-operand-reuse", "opreuse-" + fam, "opreuse-" + kind, "opreuse-" + A.get("rep", "plain"), "xy-" + reused[1]], sample=None)
+        if reused != fresh:
+            ctx.violation(dict(c, law="operand-objects-reused", sequence=REUSE_SEQ), reused, fresh,
+                          what="verdicts of the sequence (x,x) (x,y) (y,x) (x,y)@t2 (y,x) (x,x) (y,y) on ONE pair of array objects differ "
+                               "from the verdicts on fresh arrays holding the same values")
+        elif reused[0] != "T" or reused[5] != "T" or reused[6] != "T":
+            ctx.violation(dict(c, law="reflexive"), reused, "T for (x,x) and (y,y)", what="array object does not compare equal to itself")
+        elif reused[1] != reused[2]:
+            ctx.violation(dict(c, law="symmetric"), reused, "equal verdicts", what="verdict depends on the argument order (same objects)")
+
+
+def replay_operand_reuse(ctx, c):
+    reused, fresh = _operand_reuse_eval(c)
+    print(f"replay operand reuse {REUSE_SEQ}: on the same objects {reused}; on fresh objects {fresh}")
+    return reused != fresh or reused[0] != "T" or reused[5] != "T" or reused[6] != "T" or reused[1] != reused[2]
+
+
+def _scaled_want(base, A, B, comp):
+    """t * max|.| as the documentation states it, one rounding, computed with integers / fractions"""
+    shape = A["shape"]
+    rs = 1
+    for d in shape[1:]:
+        rs *= d
+    av, bv = [abs(float(x)) for x in A["v"]], [abs(float(x)) for x in B["v"]]
+    bases = base if isinstance(base, list) else None
+    if comp:
+        ms = [max(max(av[c::rs]), max(bv[c::rs])) for c in range(rs)]
+        return [rn64(Fraction(bases[c] if bases else base) * Fraction(ms[c])) for c in range(rs)]
+    m = max(max(av), max(bv))
+    if bases:
+        return [rn64(Fraction(x) * Fraction(m)) for x in bases]
+    return [rn64(Fraction(base) * Fraction(m))]
+
+
+def _scaled_got(base, A, B, comp, entry):
+    b = np.array(base, dtype=np.float64).reshape(entry) if isinstance(base, list) else base
+    got = impl_scaled(b, A, B, comp=comp)
+    return got if isinstance(got, str) else [float(x) for x in np.asarray(got, dtype=np.float64).reshape(-1)]
+
+
+def run_scaled_shapes(ctx, n, long_sizes):
+    """ScaledTolerance beyond 1-d / (rows,k) float64: global magnitude of (n,k) and (n,k,k) fields, per-component magnitudes
+    of (n,k,k) tensors, float32 and integer data, the largest magnitude in the first / last row of either operand with
+    either sign, the base tolerance given per component (an ndarray: 'scaled individually'), and long fields (the maximum
+    in the last row).  Expectation: base * max|.| with one rounding (python, exact rationals): search."""
+    rng = ctx.rng
+    todo = []
+    for _ in range(n):
+        dt = rng.choice(["f64", "f64", "f32", "i16", "u8", "i64"])
+        nrow = rng.choice([1, 2, 5, 17]); k = rng.choice([2, 3])
+        entry = rng.choice([[k], [k, k]])
+        rs = k if len(entry) == 1 else k * k
+        size = nrow * rs
+
+        def val():
+            if dt in c09.INTS:
+                lo, hi = c09.INTS[dt]
+                return rng.randint(max(lo + 1, -90), min(hi, 90))
+            x = c01.rand_float(rng, [0])
+            return float(np.float32(x)) if dt == "f32" else x
+        a, b = [val() for _ in range(size)], [val() for _ in range(size)]
+        # the dominating entry: first / last row of a or b, negative or positive (integers: within the type, no minimum)
+        tgt = rng.choice([a, b]); row = rng.choice([0, nrow - 1]); pos = row * rs + rng.randrange(rs)
+        big = rng.choice([-1, 1]) * (100 if dt in c09.INTS else 64.0)
+        if dt.startswith("u"):
+            big = abs(big)
+        tgt[pos] = big
+        comp = rng.random() < 0.5
+        base = rng.choice([1e-12, 1e-6, 2.0 ** -20, 0.25, 3.0])
+        if rng.random() < 0.4:
+            base = [rng.choice([1e-12, 1e-6, 2.0 ** -20, 0.25, 3.0]) for _ in range(rs)]
+        todo.append({"law": "scaled-shapes", "base": base, "per_component": comp, "entry": entry,
+                     "a": {"dt": dt, "shape": [nrow] + entry, "v": a}, "b": {"dt": dt, "shape": [nrow] + entry, "v": b}})
+    for nlong in long_sizes:
+        for comp in (False, True):
+            pat = [c01.rand_float(rng, [0]) for _ in range(7)]
+            k = 3
+            a = (pat * (nlong * k // 7 + 1))[:nlong * k]
+            b = list(a)
+            rng.choice([a, b])[(nlong - 1) * k + rng.randrange(k)] = rng.choice([-64.0, 64.0])
+            todo.append({"law": "scaled-shapes", "base": rng.choice([1e-6, 0.25]), "per_component": comp, "entry": [k], "long": nlong,
+                         "a": {"dt": "f64", "shape": [nlong, k], "v": a}, "b": {"dt": "f64", "shape": [nlong, k], "v": b}})
+    for c in todo:
+        got = _scaled_got(c["base"], c["a"], c["b"], c["per_component"], c["entry"])
+        want = _scaled_want(c["base"], c["a"], c["b"], c["per_component"])
+        ctx.case(("scaled-shapes", str(c["base"]), c["per_component"], c["a"]["dt"], str(c["a"]["shape"]), tuple(c["a"]["v"][:64]), tuple(c["b"]["v"][:64]),
+                  tuple(c["a"]["v"][-8:]), tuple(c["b"]["v"][-8:])), nontrivial=True,
+                 tags=["p6-scaled-shapes", "scaledsh-" + c["a"]["dt"], "scaledsh-" + ("comp" if c["per_component"] else "global"),
+                       "scaledsh-base-" + ("array" if isinstance(c["base"], list) else "number"),
+                       "scaledsh-entry-" + "x".join(map(str, c["entry"]))] + ([f"scaledsh-long-{c['long']}"] if "long" in c else []), sample=None)
+        if isinstance(got, str) or got != want:
+            small = c if "long" not in c else dict(c, a=dict(c["a"], v="<pattern>"), b=dict(c["b"], v="<pattern>"))
+            ctx.violation(c if "long" not in c else _compress_long(c), str(got)[:400], str(want)[:400],
+                          what="ScaledTolerance is not base * max|value| (one rounding) — " +
+                               ("per component" if c["per_component"] else "global magnitude") + f", field shape {c['a']['shape']}")
+
+
+def _compress_long(c):
+    """a long scaled case as literals that stay small: values listed only where they differ from the repeated pattern"""
+    def comp(arr):
+        v = arr["v"]
+        pat = v[:7]
+        exc = [[i, x] for i, x in enumerate(v) if x != pat[i % 7]]
+        return {"dt": arr["dt"], "shape": arr["shape"], "pattern": pat, "exceptions": exc}
+    return dict(c, a=comp(c["a"]), b=comp(c["b"]))
+
+
+def _expand_long(arr):
+    if "v" in arr:
+        return arr
+    size = 1
+    for d in arr["shape"]:
+        size *= d
+    v = (arr["pattern"] * (size // 7 + 1))[:size]
+    for i, x in arr["exceptions"]:
+        v[i] = x
+    return {"dt": arr["dt"], "shape": arr["shape"], "v": v}
+
+
+def replay_scaled_shapes(ctx, c):
+    A, B = _expand_long(c["a"]), _expand_long(c["b"])
+    got = _scaled_got(c["base"], A, B, c["per_component"], c["entry"])
+    want = _scaled_want(c["base"], A, B, c["per_component"])
+    print(f"replay ScaledTolerance(base={c['base']}, per component={c['per_component']}) on fields of shape {A['shape']}: {str(got)[:300]} expected {str(want)[:300]}")
+    return isinstance(got, str) or got != want
+
+
+def run_history_arrays(ctx, n):
+    """one predicate object holding per-component ndarray tolerances (the ndarrays shared with a second predicate object)
+    reused across 3-5 fields of different magnitude: every verdict equals the verdict of fresh objects built from the
+    literal tolerance values ('in-place modification of a shared tolerance array')"""
+    rng = ctx.rng
+    from fieldcompare.predicates import FuzzyEquality, DefaultEquality
+    for _ in range(n):
+        k = rng.choice([2, 3])
+        entry = [k] if rng.random() < 0.7 else [k, k]
+        rs = k if len(entry) == 1 else k * k
+        relv = [rng.choice(c01.RELS[1:12]) for _ in range(rs)]
+        absv = [rng.choice(c01.ABSS[1:]) for _ in range(rs)]
+        rel, abs_ = ["arr", entry, relv], ["arr", entry, absv]
+        kind = rng.choice(["fuzzy", "default"])
+        cls = FuzzyEquality if kind == "fuzzy" else DefaultEquality
+        ro, ao = np.array(relv, dtype=np.float64).reshape(entry), np.array(absv, dtype=np.float64).reshape(entry)
+        preds = [cls(rel_tol=ro, abs_tol=ao), cls(rel_tol=ro, abs_tol=ao)]
+        hist = []
+        for _h in range(rng.randint(3, 5)):
+            nrow = rng.choice([1, 2, 6])
+            scale = rng.choice(c01.EXPS[3:-3])
+            a = [c01.rand_float(rng, [scale]) for _ in range(nrow * rs)]
+            b = list(a)
+            for _d in range(rng.choice([1, 2])):
+                i = rng.randrange(len(a))
+                b[i] = c01.near_boundary_partner(rng, a[i], relv[i % rs], absv[i % rs])
+            hist.append(({"dt": "f64", "shape": [nrow] + entry, "v": a}, {"dt": "f64", "shape": [nrow] + entry, "v": b}))
+        reused = [_call(preds[j % 2], predio.np_array(A), predio.np_array(B)) for j, (A, B) in enumerate(hist)]
+        fresh = [predio.run_impl(kind, rel, abs_, A, B) for A, B in hist]
+        ctx.case(("hist-arr", kind, str(rel), str(abs_), str(hist)), nontrivial=True, tags=["p6-history-array-tol", "hist-" + kind], sample=None)
+        if reused != fresh:
+            ctx.violation({"law": "history-free", "kind": kind, "rel": rel, "abs": abs_, "shared_tolerance_arrays": True,
+                           "history": [{"a": A, "b": B} for A, B in hist]}, reused, fresh,
+                          what="predicate objects sharing their per-component tolerance ndarrays answer differently from fresh ones")
+
+
+def replay_history(ctx, c):
+    from fieldcompare.predicates import FuzzyEquality, DefaultEquality
+    kind, rel, abs_ = c["kind"], c["rel"], c["abs"]
+    hist = [(h["a"], h["b"]) for h in c["history"]]
+    if c.get("shared_tolerance_arrays"):
+        cls = FuzzyEquality if kind == "fuzzy" else DefaultEquality
+        ro, ao = np.array(rel[2], dtype=np.float64).reshape(rel[1]), np.array(abs_[2], dtype=np.float64).reshape(abs_[1])
+        preds = [cls(rel_tol=ro, abs_tol=ao), cls(rel_tol=ro, abs_tol=ao)]
+        reused = [_call(preds[j % 2], predio.np_array(A), predio.np_array(B)) for j, (A, B) in enumerate(hist)]
+    else:
+        pred = predio.make_pred(kind, rel, abs_)
+        reused = [predio.run_impl(kind, rel, abs_, A, B, pred=pred) for A, B in hist]
+    fresh = [predio.run_impl(kind, rel, abs_, A, B) for A, B in hist]
+    print(f"replay history: reused objects {reused}; fresh objects {fresh}")
+    return reused != fresh
+
+
 def run(ctx):
     ctx.rule = ("metamorphic groups on real predicate objects: float64 pairs (boundary-directed deviations, shapes "
                 "(n,),(n,k),(n,k,k)) evaluated as (a,a),(a,b),(b,a) and at tolerance levels t1<=t2 (scalar, per-component, "
@@ -586,6 +1075,13 @@ def run(ctx):
     run_scaled_comp(ctx, ctx.scale(300, 20000))
     run_history(ctx, ctx.scale(150, 10000))
     run_shape_mix(ctx, ctx.scale(300, 20000))
+    if not P6G_OFF:
+        run_small_floats(ctx, ctx.scale(300, 10000))
+        run_mixed_dtypes(ctx, ctx.scale(500, 30000))
+        run_operand_reuse(ctx, ctx.scale(300, 10000))
+        run_scaled_shapes(ctx, ctx.scale(300, 15000), [1001, 70001] if ctx.tier == "quick" else [1001, 4097, 70001, 300007])
+        run_history_arrays(ctx, ctx.scale(80, 4000))
+        run_cli_mixed(ctx, ctx.scale(40, 1500))
     run_cli_chains(ctx, n_vtu=ctx.scale(16, 70), rounds=ctx.scale(1, 12))
 
 
@@ -623,6 +1119,34 @@ def replay(ctx, payload):
     law = c.get("law")
     if c.get("kind") == "cli-chain":
         if replay_cli_chain(ctx, c):
+            print(f"VIOLATION property=C10 replay={payload.get('_path', '<replay>')}")
+            return 1
+        return 0
+    for flag, fn in (("operand_reuse", replay_operand_reuse), ("history", replay_history)):
+        if flag in c and (law in ("operand-objects-reused", "history-free") or flag == "operand_reuse"):
+            if fn(ctx, c):
+                print(f"VIOLATION property=C10 replay={payload.get('_path', '<replay>')}")
+                return 1
+            return 0
+    if c.get("kind") == "cli-mixed":
+        out = _cli_mixed_eval(c)
+        want0 = _cli_mixed_want(c)
+        print(f"replay fieldcompare file <int column> <float column> {' '.join(c['options'])}: exits {out}; demanded: equal classes, "
+              f"{'0' if want0 else 'non-zero'}")
+        if (out["int-first"] == 0) != (out["float-first"] == 0) or (out["int-first"] == 0) != want0:
+            print(f"VIOLATION property=C10 replay={payload.get('_path', '<replay>')}")
+            return 1
+        return 0
+    if law == "scaled-shapes":
+        if replay_scaled_shapes(ctx, c):
+            print(f"VIOLATION property=C10 replay={payload.get('_path', '<replay>')}")
+            return 1
+        return 0
+    if c.get("mixed_dtypes") or (law in ("reflexive", "symmetric", "monotone") and "t1" in c and "a" in c and "kind" in c):
+        v = _four(c["kind"], c["a"], c["b"], c["t1"], c["t2"])
+        bad = v["aa"] != "T" or v["ab1"] != v["ba1"] or (v["ab1"] == "T" and v["ab2"] != "T")
+        print("replay law group (aa, ab@t1, ba@t1, ab@t2):", v, "-> laws violated" if bad else "-> laws hold")
+        if bad:
             print(f"VIOLATION property=C10 replay={payload.get('_path', '<replay>')}")
             return 1
         return 0
